@@ -442,6 +442,13 @@ impl SimNode {
                 ));
                 return;
             }
+            RpcFault::Code(0) => {
+                self.rpcs[idx].fault = Some("codeless");
+                self.rpcs[idx].state = RpcState::ReplyReady(SimReply::Codeless(
+                    "Error passing request to lightningd: broken pipe".into(),
+                ));
+                return;
+            }
             RpcFault::Code(c) => {
                 self.rpcs[idx].fault = Some("code");
                 self.rpcs[idx].state =
@@ -469,7 +476,8 @@ impl SimNode {
         if fault == RpcFault::AppliedButError {
             if let RpcState::ReplyReady(SimReply::Result(_)) = self.rpcs[idx].state {
                 self.rpcs[idx].fault = Some("applied-but-error");
-                self.rpcs[idx].state = RpcState::ReplyReady(SimReply::Transport(
+                // cln_rpc reports a broken read as an RPC error without code.
+                self.rpcs[idx].state = RpcState::ReplyReady(SimReply::Codeless(
                     "reading response from socket".into(),
                 ));
             }
